@@ -334,6 +334,30 @@ func respProp(p *Pkg, _ *Pkg, payload json.RawMessage, res *Result) {
 					}
 					c02Judge(&pl, ro, c, args, val, rec, rawSent, in, bad)
 					seenStatuses[rec.Status] = true
+					// the same value written onto a ResponseWriter that already carries headers (an outer
+					// middleware's fallback Content-Type): the documented response must come out the same
+					rawBody := false
+					if val.Kind() == reflect.Struct {
+						if b := val.FieldByName("Body"); b.IsValid() && b.Kind() == reflect.Interface {
+							rawBody = true
+						}
+					}
+					if !rawBody {
+						rec2 := NewRecorder()
+						rec2.H.Set("Content-Type", "text/html; charset=preset")
+						rec2.H.Set("X-Preset", "1")
+						if pn := Catch(func() { api.ServeHTTP(rec2, NewRequest(ro.Method, ro.Path, "", nil, nil)) }); pn != "" {
+							bad("panic-in-write", c.Name, in+" (writer with preset headers)", pn, "")
+							continue
+						}
+						res.Count("responses-preset-writer", 1)
+						ct1 := rec.HeaderAtWH.Get("Content-Type")
+						sameBody := string(rec2.Body) == string(rec.Body) || (json.Valid(rec.Body) && jsonEqual(rec.Body, rec2.Body)) // object key order is free
+						if rec2.Status != rec.Status || !sameBody || (ct1 != "" && rec2.HeaderAtWH.Get("Content-Type") != ct1) {
+							bad("preset-writer-differs", c.Name, in, fmt.Sprintf("on a writer that already carried Content-Type text/html: status %d, Content-Type %q, body %q", rec2.Status, rec2.HeaderAtWH.Get("Content-Type"), firstN(string(rec2.Body), 80)),
+								fmt.Sprintf("as on a fresh writer: status %d, Content-Type %q, body %q", rec.Status, ct1, firstN(string(rec.Body), 80)))
+						}
+					}
 					continue
 				}
 				// C10 (i): the client reconstructs what the handler returned
